@@ -502,13 +502,46 @@ impl SparqlDatabase {
         xml
     }
 
+    /// N-Triples-star spelling of a term: quoted triples recursively, IRIs in angle
+    /// brackets, blank nodes as they are, anything else as an escaped literal.
+    fn format_term_star(&self, id: u32) -> String {
+        if is_quoted_triple_id(id) {
+            let components = self.quoted_triple_store.read().unwrap().decode(id);
+            if let Some((s, p, o)) = components {
+                return format!(
+                    "<< {} {} {} >>",
+                    self.format_term_star(s),
+                    self.format_term_star(p),
+                    self.format_term_star(o)
+                );
+            }
+        }
+        let value = self.decode_any(id).unwrap_or_default();
+        if value.starts_with("_:") {
+            value
+        } else if looks_like_absolute_iri(&value) {
+            format!("<{}>", value)
+        } else {
+            format!("\"{}\"", escape_ntriples_literal(&value))
+        }
+    }
+
+    /// `decode_any`, except that quoted triples are spelled with delimited components.
+    fn decode_for_export(&self, id: u32) -> String {
+        if is_quoted_triple_id(id) {
+            self.format_term_star(id)
+        } else {
+            self.decode_any(id).unwrap_or_default()
+        }
+    }
+
     /// Serializes all triples as N-Triples-star format
     pub fn generate_ntriples(&self) -> String {
         let mut output = String::new();
         for triple in self.query_default_triples(None, None, None) {
-            let s = self.decode_any(triple.subject).unwrap_or_default();
+            let s = self.decode_for_export(triple.subject);
             let p = self.decode_any(triple.predicate).unwrap_or_default();
-            let o = self.decode_any(triple.object).unwrap_or_default();
+            let o = self.decode_for_export(triple.object);
 
             let s_str = if s.starts_with("<<") {
                 s
@@ -532,9 +565,9 @@ impl SparqlDatabase {
     pub fn generate_nquads(&self) -> String {
         let mut output = String::new();
         for quad in self.dataset_index.all_quads() {
-            let s = self.decode_any(quad.subject).unwrap_or_default();
+            let s = self.decode_for_export(quad.subject);
             let p = self.decode_any(quad.predicate).unwrap_or_default();
-            let o = self.decode_any(quad.object).unwrap_or_default();
+            let o = self.decode_for_export(quad.object);
 
             let s_str = if s.starts_with("<<") || s.starts_with("_:") {
                 s
@@ -585,9 +618,9 @@ impl SparqlDatabase {
             std::collections::BTreeMap<String, Vec<String>>,
         > = std::collections::BTreeMap::new();
         for triple in self.query_default_triples(None, None, None) {
-            let s = self.decode_any(triple.subject).unwrap_or_default();
+            let s = self.decode_for_export(triple.subject);
             let p = self.decode_any(triple.predicate).unwrap_or_default();
-            let o = self.decode_any(triple.object).unwrap_or_default();
+            let o = self.decode_for_export(triple.object);
             subjects.entry(s).or_default().entry(p).or_default().push(o);
         }
 
